@@ -3,6 +3,8 @@ package readline
 import (
 	"strings"
 
+	"github.com/reeflective/readline/internal/core"
+
 	"github.com/reeflective/readline/internal/history"
 	"github.com/reeflective/readline/internal/zzverif"
 )
@@ -40,10 +42,50 @@ func ZZ_C08_Cmd() {
 		rl.AcceptMultiline = nil
 		accepts = true
 	}
+	// prev (optional): an earlier Readline call on the same shell, in which the line "pp" is
+	// left through that command; what the sources hold afterwards is the checked call's
+	// starting point
+	prevCmd := zzverif.Param("prev")
+	if prevCmd != "" {
+		for s, src := range srcs {
+			for _, e := range before[s] {
+				src.Write(e)
+			}
+			rl.History.Add("src"+string(rune('0'+s)), src)
+		}
+		first := &zzverif.Script{}
+		fw := 0
+		first.OnWait = func() {
+			if fw == 0 {
+				rl.line.Set([]rune("pp")...)
+				rl.cursor.Set(2)
+				keys := zzKeysFor(rl, "emacs", prevCmd)
+				zzverif.Assume(keys != "")
+				first.Chunks = [][]byte{[]byte(keys)}
+			} else {
+				zzverif.Assume(false) // the earlier call did not return
+			}
+			fw++
+		}
+		core.Stdin = first
+		rl.Readline()
+		zzverif.Reach("first-call-returned")
+		core.Stdin = script
+		for s, src := range srcs {
+			before[s] = nil
+			for i := 0; i < src.Len(); i++ {
+				e, _ := src.GetLine(i)
+				before[s] = append(before[s], e)
+			}
+		}
+	}
 	wait := 0
 	script.OnWait = func() {
 		if wait == 0 {
 			for s, src := range srcs {
+				if prevCmd != "" {
+					break
+				}
 				for _, e := range before[s] {
 					src.Write(e)
 				}
